@@ -11,6 +11,8 @@ import (
 	"go/types"
 	"sort"
 	"strings"
+
+	"golang.org/x/tools/go/types/typeutil"
 )
 
 func checkC08WhereKept(c *Ctx) {
@@ -107,5 +109,161 @@ func checkC08WhereKept(c *Ctx) {
 			}
 		}
 		r.Check(w.key != "" && hasWhere && hasMarker, root.Name(), desc, w.node.Pos(), "WHERE entry and marker written together", "the WHERE clause (or the soft-delete marker) of a statement is replaced or deleted by key without the other half: the filter the soft-delete modifier added is dropped while the marker that suppresses re-adding it stays (or the other way round) - later finishers on this statement see soft-deleted rows")
+	}
+}
+
+// C08.group-subject: whether a unit of the WHERE clause is put in parentheses is decided (in
+// clause.buildExprs) from the raw SQL text of the unit, obtained through a resolver func(Expression)
+// (string, bool).  The soft-delete regroup wraps the user's conditions as And(Or(raw)): a singleton
+// AndConditions around a singleton OrConditions (clause.And keeps that wrapper on purpose).  The resolver
+// therefore has to look through singleton AndConditions / OrConditions wrappers; if it does not, the text
+// `a OR b` inside the wrappers is not seen, no parentheses are written and the filter binds to the last
+// alternative only (`a OR b AND deleted_at IS NULL`).
+func checkC08GroupSubject(c *Ctx) {
+	p := c.P
+	r := c.Rule("C08.group-subject", "the raw-text resolver of the parenthesisation decisions looks through singleton And/Or wrappers", 2)
+	exprI := p.Iface(pkgClause, "Expression")
+	wrappers := []*types.Named{p.Named(pkgClause, "AndConditions"), p.Named(pkgClause, "OrConditions")}
+	raws := []*types.Named{p.Named(pkgClause, "Expr"), p.Named(pkgClause, "NamedExpr")}
+	n := 0
+	for _, f := range p.FuncsOf(pkgClause) {
+		if f.Obj == nil || f.Parent != nil {
+			continue
+		}
+		sig := f.Obj.Type().(*types.Signature)
+		if sig.Recv() != nil || sig.Params().Len() != 1 || sig.Results().Len() != 2 {
+			continue
+		}
+		if !types.Identical(sig.Params().At(0).Type().Underlying(), exprI) || !types.Identical(sig.Results().At(0).Type(), types.Typ[types.String]) || !types.Identical(sig.Results().At(1).Type(), types.Typ[types.Bool]) {
+			continue
+		}
+		info := f.Pkg.TypesInfo
+		// the cases of its type switch
+		cases := map[*types.Named]*ast.CaseClause{}
+		ast.Inspect(f.Body, func(nd ast.Node) bool {
+			ts, ok := nd.(*ast.TypeSwitchStmt)
+			if !ok {
+				return true
+			}
+			for _, st := range ts.Body.List {
+				cc := st.(*ast.CaseClause)
+				for _, te := range cc.List {
+					if tv, ok := info.Types[te]; ok {
+						if nt, ok := tv.Type.(*types.Named); ok {
+							cases[nt] = cc
+						}
+					}
+				}
+			}
+			return true
+		})
+		isResolver := true
+		for _, rt := range raws {
+			if cases[rt] == nil {
+				isResolver = false
+			}
+		}
+		if !isResolver {
+			continue
+		}
+		n++
+		c.Touch(f)
+		for _, w := range wrappers {
+			cc := cases[w]
+			recurses := false
+			if cc != nil {
+				for _, st := range cc.Body {
+					ast.Inspect(st, func(x ast.Node) bool {
+						if ce, ok := x.(*ast.CallExpr); ok {
+							if fn, _ := typeutil.Callee(info, ce).(*types.Func); fn == f.Obj {
+								recurses = true
+							}
+						}
+						return true
+					})
+				}
+			}
+			r.Check(recurses, f.Name(), "looks through a singleton "+w.Obj().Name(), f.Body.Pos(), "case "+w.Obj().Name()+" with one member resolves to the member's text", "the raw text of a unit wrapped in a singleton "+w.Obj().Name()+" is not seen by the parenthesisation decisions: the soft-delete regroup And(Or(`a OR b`)) is rendered without parentheses and the filter applies to the last alternative only (`a OR b AND deleted_at IS NULL` shows soft-deleted rows)")
+		}
+	}
+	if n == 0 {
+		r.Bad("clause", "resolver", 0, "no raw-text resolver func(Expression) (string, bool) with cases for Expr and NamedExpr found; rule lost its anchor")
+	}
+}
+
+// C08.clause-probe: the model's soft-delete behaviour is attached by probing each field's type for the
+// clause interfaces (QueryClausesInterface, UpdateClausesInterface, DeleteClausesInterface, ...).  The probe
+// value must be built from the field's *indirect* type: a field declared as a pointer (`*gorm.DeletedAt`)
+// implements the interfaces only after one level of indirection.  Sibling rule over every place where a
+// value made with reflect.New(<field type>) is type-asserted to an interface declared in the library.
+func checkC08ClauseProbe(c *Ctx) {
+	p := c.P
+	r := c.Rule("C08.clause-probe", "SIBLINGS(capability probes of a field's type): reflect.New over Field.IndirectFieldType", 2)
+	fieldT := p.Named(pkgSchema, "Field")
+	indF := p.Field(fieldT, "IndirectFieldType")
+	ftF := p.Field(fieldT, "FieldType")
+	reflectNew := p.StdFunc("reflect", "New")
+	isRepoIface := func(t types.Type) bool {
+		nt, ok := t.(*types.Named)
+		if !ok || nt.Obj().Pkg() == nil {
+			return false
+		}
+		if _, isI := nt.Underlying().(*types.Interface); !isI {
+			return false
+		}
+		pp := nt.Obj().Pkg().Path()
+		return pp == pkgGorm || pp == pkgSchema || pp == pkgMigrator || pp == pkgClause || pp == pkgCallbacks
+	}
+	for _, f := range p.FuncsOf(pkgGorm, pkgSchema, pkgMigrator, pkgCallbacks) {
+		info := f.Pkg.TypesInfo
+		// resolve an expression to the reflect.New call it comes from (through .Interface() and single-def locals)
+		var origin func(e ast.Expr, depth int) *ast.CallExpr
+		origin = func(e ast.Expr, depth int) *ast.CallExpr {
+			if depth > 4 {
+				return nil
+			}
+			switch x := unparen(e).(type) {
+			case *ast.CallExpr:
+				if fn, _ := typeutil.Callee(info, x).(*types.Func); fn == reflectNew {
+					return x
+				}
+				if sel, ok := x.Fun.(*ast.SelectorExpr); ok && sel.Sel.Name == "Interface" && len(x.Args) == 0 {
+					return origin(sel.X, depth+1)
+				}
+			case *ast.Ident:
+				if ds := localDefs(f, x.Name, x.Pos()); len(ds) == 1 && ds[0].rhs != nil {
+					return origin(ds[0].rhs, depth+1)
+				}
+			}
+			return nil
+		}
+		seen := map[*ast.CallExpr]bool{}
+		ast.Inspect(f.Body, func(n ast.Node) bool {
+			if _, ok := n.(*ast.FuncLit); ok {
+				return false
+			}
+			ta, ok := n.(*ast.TypeAssertExpr)
+			if !ok || ta.Type == nil {
+				return true
+			}
+			tv, ok := info.Types[ta.Type]
+			if !ok || !isRepoIface(tv.Type) {
+				return true
+			}
+			nw := origin(ta.X, 0)
+			if nw == nil || seen[nw] || len(nw.Args) != 1 {
+				return true
+			}
+			// only probes of a schema.Field's type
+			arg := unparen(nw.Args[0])
+			isInd, isFT := fieldSel(info, arg, indF), fieldSel(info, arg, ftF)
+			if !isInd && !isFT {
+				return true
+			}
+			seen[nw] = true
+			c.Touch(f)
+			r.Check(isInd, rootFunc(f).Name(), "probe value for "+tv.Type.(*types.Named).Obj().Name(), nw.Pos(), "reflect.New(field.IndirectFieldType)", "a field's type is probed for a capability interface with a value of the declared type instead of the indirect type: a field declared as a pointer (e.g. `*gorm.DeletedAt`) is not recognised, the model silently loses its soft-delete (or data-type / serializer) behaviour")
+			return true
+		})
 	}
 }
